@@ -172,6 +172,8 @@ def run(ctx):
                 cmds.append("proc %r %d" % (op["v"] / ONE, op["w"]))
             elif op["a"] == "norm":
                 cmds.append("norm")
+            elif op["a"] == "reinit":
+                cmds.append("reinit %r %r %d %d" % (op["m"] / ONE, op["mx"] / ONE, op["n"], 1 if op["per"] else 0))
             else:
                 cmds.append("clear")
             cmds.append("dump")
@@ -186,10 +188,14 @@ def run(ctx):
             continue
         out = results[i]
         normed = False
+        cur_m = r["cfg"]["m"]
         for j, op in enumerate(r["h"]):
+            if op["a"] == "reinit":
+                mode = "periodic" if op["per"] else "open"
+                cur_m = op["m"]
             ex = _exc(out[1 + 2 * j])
             if ex:
-                side = "below" if op.get("v", 0) < r["cfg"]["m"] else "above"
+                side = "below" if op.get("v", 0) < cur_m else "above"
                 ctx.violation("HistogramNew:%s:oob-%s" % (mode, side), "history step %d (%s): %s" % (j, op, ex), r)
                 break
             bins, _ = _parse_bins(out[2 + 2 * j])
@@ -198,7 +204,7 @@ def run(ctx):
                 kind = "normalize"
             else:
                 exp = [float(b) for b in op["b"]]
-                kind = "clear" if op["a"] == "clear" else "weight"
+                kind = "clear" if op["a"] == "clear" else "reinit" if op["a"] == "reinit" else "weight"
             if bins is None or len(bins) != len(exp) or any(not vlib.close(a, b, 1e-12, 0) for a, b in zip(bins, exp)):
                 ctx.violation("HistogramNew:%s:%s" % (mode, kind), "history step %d (%s): bins %s expected %s" % (j, op, bins, exp), r)
                 break
